@@ -19,6 +19,9 @@ func (i *interpreter) compact(v value) value {
 	if !ok || len(s.e) < 160 {
 		return v
 	}
+	if s.sort == SInt && len(s.e) < 1200 {
+		return v // keep integer terms textual: syntactic length reasoning compares them
+	}
 	p := i.path
 	n := p.freshVar("t", s.sort)
 	p.pc = append(p.pc, "(= "+n.e+" "+s.e+")")
